@@ -86,8 +86,9 @@ class ItemRun:
     round trip.  `theory.thy` must be the theory just before the item; afterwards it is the theory
     extended by the item (if accepted)."""
 
-    def __init__(self, raw):
+    def __init__(self, raw, widths=None):
         self.raw = raw
+        self.widths = ALL_WIDTHS if widths is None else widths   # (line_length, unicode) besides monitor's (None, True)
         self.status = None        # 'error' | 'ext-raises' | 'extend-fails' | 'accepted'
         self.err = None
         self.defects = []         # (class, detail)
@@ -108,6 +109,33 @@ class ItemRun:
         item = items.parse_item(copy.deepcopy(raw))
         self.item = item
         return self._rest(item)
+
+    def edit_roundtrip_at(self, item, old_thy, new_thy, L, uni):
+        """parse_edit(get_display()) with the editor form produced under line_length=L; returns a
+        description of the failure or None"""
+        from kernel import theory
+        from server import items
+        from syntax.settings import global_setting
+        try:
+            theory.thy = new_thy                       # the item is displayed in the extended theory
+            with global_setting(line_length=L):
+                with global_setting(unicode=uni, highlight=False):
+                    edit_item = item.get_display()
+            theory.thy = copy.copy(old_thy)
+            item2 = items.parse_edit(edit_item)
+            if item.ty == 'thm':
+                item2.proof = item.proof
+                item2.steps = item.steps
+                item2.num_gaps = item.num_gaps
+            if item2.error is not None:
+                return "parse_edit(get_display()) fails: %s: %s" % (type(item2.error).__name__, str(item2.error)[:120])
+            if item != item2:
+                return "parse_edit(get_display()) != item"
+        except Timeout:
+            raise
+        except Exception as e:  # noqa
+            return "raises %s: %s" % (type(e).__name__, str(e)[:120])
+        return None
 
     def _rest(self, item):
         from kernel import theory
@@ -161,6 +189,16 @@ class ItemRun:
             raise
         except Exception as e:  # noqa
             self.defects.append(("edit-roundtrip", "raises %s: %s" % (type(e).__name__, str(e)[:160])))
+        # -- the same round trip under the ambient settings the IDE uses: app/ide.py builds the editor
+        # form (`export_web`: get_display under highlight=False, unicode=True) inside
+        # global_setting(line_length=<client width>) and hands it back to parse_edit
+        failing = []
+        for (L, uni) in self.widths:
+            d = self.edit_roundtrip_at(item, old_thy, new_thy, L, uni)
+            if d is not None:
+                failing.append("line_length=%s unicode=%s: %s" % (L, uni, d))
+        if failing:
+            self.defects.append(("edit-roundtrip-width", failing[0] + (" (and %d more settings)" % (len(failing) - 1) if len(failing) > 1 else "")))
         # -- file round trip
         try:
             theory.thy = copy.copy(old_thy)
@@ -178,6 +216,9 @@ class ItemRun:
             self.defects.append(("json-roundtrip", "raises %s: %s" % (type(e).__name__, str(e)[:160])))
         theory.thy = new_thy
         return self
+
+
+ALL_WIDTHS = [(120, True), (80, True), (60, True), (40, True), (None, False), (60, False)]
 
 
 # ------------------------------------------------------------------ stream (a): the library
@@ -208,10 +249,14 @@ def run_library(ctx, names):
             load_failure(ctx, name, e)
             continue
         for idx, raw in enumerate(data['content']):
-            with time_limit(120):
-                r = ItemRun(raw).run()
-            nitems += 1
             ty = raw.get('ty')
+            widths = None
+            if ty == 'thm' and ctx.tier == "quick":      # thousands of theorems: two of the settings each, rotating
+                k = (idx + ctx.seed) % len(ALL_WIDTHS)
+                widths = [ALL_WIDTHS[k], ALL_WIDTHS[(k + 3) % len(ALL_WIDTHS)]]
+            with time_limit(180):
+                r = ItemRun(raw, widths).run()
+            nitems += 1
             ctx.count("library:%s:%s" % (ty, r.status))
             ctx.case(("lib", name, idx), nontrivial=(r.status == "accepted" and ty != "header"))
             if r.status == "error":
@@ -781,6 +826,117 @@ def inductive_item(rng, g):
     return kind, {"ty": "def.pred", "name": name, "type": ty_str(T), "rules": rules}
 
 
+def ty_rename(T, m):
+    """rename / instantiate type variables by the map m (name -> type tuple)"""
+    return subst_ty(T, m)
+
+
+def related_selfref_item(rng, g):
+    """a definition whose right-hand side NEGATES the constant at a type related to, but written
+    differently from, the type being defined: type variables permuted ('a => 'b vs 'b => 'a),
+    merged ('a => 'a), renamed to fresh ones, partially instantiated (nat for 'b), wrapped
+    ('a list), or of a different but unifiable shape.  Whenever the two types have a common
+    instance the definition is unsound (c x x <--> ~(c x x) at the instance) and must be rejected."""
+    rng_ = rng
+    g.bases = [BOOL, NAT]
+    shapes = [
+        [TA, TB], [TA, TB, TA], [fun(TA, TB), TA], [("list", TA), ("list", TB)], [TA, fun(TB, BOOL)],
+        [TA, TB, TC], [fun(TA, TA), TB], [("list", TA), TB], [TA, NAT, TB], [TA], [fun(TA, TB)], [("list", ("list", TA)), TB],
+    ]
+    argTs = list(rng_.choice(shapes))
+    R = rng_.choice([BOOL, BOOL, NAT])
+    T = fun(*(argTs + [R]))
+    tv = ty_tvars(T)
+    fam = rng_.choice(["permute", "permute", "merge", "fresh", "partial", "wrap", "identity-annotated", "other-shape"])
+    if fam == "permute" and len(tv) >= 2:
+        p = tv[:]
+        while p == tv:
+            rng_.shuffle(p)
+        m = {a: ("tv", b) for a, b in zip(tv, p)}
+    elif fam == "merge" and len(tv) >= 2:
+        tgt = rng_.choice(tv)
+        m = {a: ("tv", tgt) for a in tv}
+    elif fam == "fresh":
+        fresh = ["d", "e", "f"]
+        m = {a: ("tv", fresh[i]) for i, a in enumerate(tv) if rng_.random() < 0.8}
+    elif fam == "partial":
+        m = {a: rng_.choice([NAT, BOOL, ("list", NAT), ("tv", a)]) for a in tv}
+    elif fam == "wrap":
+        a = rng_.choice(tv)
+        m = {a: rng_.choice([("list", ("tv", a)), fun(("tv", a), ("tv", a)), ("list", ("tv", rng_.choice(tv)))])}
+    elif fam == "other-shape":       # not an instance of T at all: the parser / checks must cope
+        S = fun(*(list(reversed(argTs)) + [R]))
+        m = None
+    else:
+        fam = "identity-annotated" if fam == "identity-annotated" else fam + "->identity"
+        m = {}
+    S = ty_rename(T, m) if m is not None else S
+    name = g.fresh("c")
+    names = rng_.sample(VNAMES, len(argTs))
+    env = list(zip(names, argTs))
+    # arguments of the recursive occurrence: variables of the right type where there are any
+    sargs, X = [], S
+    while X[0] == "fun" and len(sargs) < len(argTs):
+        sargs.append(X[1])
+        X = X[2]
+    call_args = []
+    for A in sargs:
+        c = [n for n, B in env if B == A]
+        call_args.append(rng_.choice(c) if c else g.leaf(A, env))
+    call = "(" + " ".join(["(%s::%s)" % (name, ty_str(S))] + call_args) + ")"
+    rhs = "(~%s)" % call if R == BOOL else "(Suc %s)" % call
+    if rng_.random() < 0.3:
+        rhs = "(%s & %s)" % (g.term(BOOL, 1, env), rhs) if R == BOOL else "(%s + %s)" % (rhs, g.term(NAT, 1, env))
+    lhs = " ".join([name] + ["(%s::%s)" % (n, ty_str(A)) for n, A in env])
+    return "related-selfref:" + fam, {"ty": "def", "name": name, "type": ty_str(T), "prop": "%s = %s" % (lhs, rhs)}
+
+
+def long_item(rng, g):
+    """items whose printed rules / statements are longer than the widths an editor window has
+    (60-200 characters): the editor form is then broken over several lines, or must not be"""
+    c = rng.randrange(6)
+    if c == 0:      # recursive function with long right-hand sides
+        g.bases = [BOOL, NAT]
+        name = g.fresh("fn")
+        k = rng.randint(4, 9)
+        rhs0 = " + ".join("(%s)" % g.term(NAT, 2, []) for _ in range(k))
+        rhs1 = " + ".join(["(%s n)" % name] + ["(if %s then n else %s)" % (g.term(BOOL, 1, [("n", NAT)]), g.term(NAT, 1, [("n", NAT)])) for _ in range(k)])
+        return "long:fun", {"ty": "def.ind", "name": name, "type": "nat => nat",
+                            "rules": [{"prop": "%s 0 = %s" % (name, rhs0)}, {"prop": "%s (Suc n) = %s" % (name, rhs1)}]}
+    if c == 1:      # inductive predicate with many premises
+        g.bases = [BOOL, NAT]
+        name = g.fresh("pr")
+        env = [("m", NAT), ("n", NAT)]
+        rules = []
+        for i in range(rng.randint(1, 3)):
+            prems = ["(%s %s %s)" % (name, g.term(NAT, 1, env), g.term(NAT, 1, env)) if rng.random() < 0.5 else g.term(BOOL, 2, env)
+                     for _ in range(rng.randint(4, 8))]
+            rules.append({"name": g.fresh("%s_rule" % name), "prop": " --> ".join(prems + ["%s (Suc m) (m + n)" % name])})
+        return "long:inductive", {"ty": "def.pred", "name": name, "type": "nat => nat => bool", "rules": rules}
+    if c == 2:      # datatype with long constructor lists
+        name = g.fresh("dt")
+        constrs = []
+        for i in range(rng.randint(2, 4)):
+            n = rng.randint(5, 9)
+            anames = ["argument_%d_%d" % (i, j) for j in range(n)]
+            tys = [rng.choice(["nat", "bool", "'a", "nat list", "'a => nat", "'a %s" % name]) for _ in range(n)]
+            constrs.append({"name": g.fresh("Constructor"), "args": anames, "type": " => ".join(["(%s)" % t for t in tys] + ["'a %s" % name])})
+        return "long:datatype", {"ty": "type.ind", "name": name, "args": ["a"], "constrs": constrs}
+    if c == 3:      # definition with a long right-hand side
+        g.bases = [BOOL, NAT]
+        name = g.fresh("c")
+        env = [("x", NAT), ("p", fun(NAT, BOOL))]
+        rhs = " & ".join("(%s)" % g.term(BOOL, 3, env) for _ in range(rng.randint(3, 7)))
+        return "long:def", {"ty": "def", "name": name, "type": "nat => (nat => bool) => bool", "prop": "%s x p <--> %s" % (name, rhs)}
+    g.bases = BASES
+    env = [("x", NAT), ("y", TA), ("f", fun(TA, TA)), ("p", fun(NAT, BOOL))]
+    prop = " --> ".join("(%s)" % g.term(BOOL, 3, env) for _ in range(rng.randint(3, 7)))
+    it = {"ty": "thm.ax" if c == 4 else "thm", "name": g.fresh("long_th"), "vars": {n: ty_str(T) for n, T in env}, "prop": prop}
+    if rng.random() < 0.5:
+        it["attributes"] = ["hint_rewrite"]
+    return "long:theorem", it
+
+
 def other_item(rng, g):
     """axiomatic constants, axioms, theorems with attributes, axiomatic types, headers"""
     g.bases = BASES
@@ -1071,16 +1227,22 @@ def run_generated(ctx, ncases):
     cases = list(corpus_items(ctx))
     for _ in range(ncases):
         r = rng.random()
-        if r < 0.55:
+        if r < 0.50:
             cases.append(g.item())
+        elif r < 0.55:
+            cases.append(related_selfref_item(rng, g))
         elif r < 0.70:
             cases += overloaded_items(rng, g)
         elif r < 0.80:
             cases.append(datatype_item(rng, g))
         elif r < 0.88:
             cases.append(fun_item(rng, g))
-        elif r < 0.94:
+        elif r < 0.92:
             cases.append(inductive_item(rng, g))
+        elif r < 0.96:
+            cases.append(long_item(rng, g))
+        elif r < 0.99:
+            cases.append(related_selfref_item(rng, g))
         else:
             cases.append(other_item(rng, g))
     model_lines, model_owner = [], []
@@ -1185,7 +1347,7 @@ def gen_key(raw, cls, detail):
     """key of a defect found on a generated item: item kind, defect class and the first words of
     the failure (no generated names)"""
     import re
-    d = re.sub(r"\b(c|dt|K|fn|pr|ac|oc|ax|th|at|bl)\d+\b", "N", detail)
+    d = re.sub(r"\b(c|dt|K|fn|pr|ac|oc|ax|th|at|bl|Constructor|long_th)\d+\b", "N", detail)
     d = re.sub(r"pr\d+_r\d+|N_rN|N_r\d+", "N", d)
     return "generated:%s:%s:%s" % (raw['ty'], cls, d[:80])
 
@@ -1207,6 +1369,22 @@ def corpus_items(ctx):
         ("corpus:overload:self", {"ty": "def", "name": "zero", "type": "bool", "prop": "(zero::bool) = ~(zero::bool)"}),
         ("corpus:overload:overlap", {"ty": "def", "name": "zero", "type": "'a list", "prop": "(zero::'a list) = (if (zero::nat list) = [] then [] else [])"}),
         ("corpus:overload:other-instance", {"ty": "def", "name": "zero", "type": "bool", "prop": "(zero::bool) <--> ((zero::nat) = 0)"}),
+        ("corpus:related-selfref:permute", {"ty": "def", "name": "cperm", "type": "'a => 'b => bool",
+                                            "prop": "cperm (x::'a) (y::'b) <--> ~((cperm::'b => 'a => bool) y x)"}),
+        ("corpus:related-selfref:merge", {"ty": "def", "name": "cmerge", "type": "'a => 'b => bool",
+                                          "prop": "cmerge (x::'a) (y::'b) <--> ~((cmerge::'a => 'a => bool) x x)"}),
+        ("corpus:related-selfref:permute", {"ty": "def", "name": "clperm", "type": "'a list => 'b list => nat",
+                                            "prop": "clperm (x::'a list) (y::'b list) = Suc ((clperm::'b list => 'a list => nat) y x)"}),
+        ("corpus:related-selfref:partial", {"ty": "def", "name": "cpart", "type": "'a => 'b => bool",
+                                            "prop": "cpart (x::'a) (y::'b) <--> ~((cpart::'a => nat => bool) x 0)"}),
+        ("corpus:related-selfref:fresh", {"ty": "def", "name": "cfresh", "type": "'a => bool",
+                                          "prop": "cfresh (x::'a) <--> ~((cfresh::'c => bool) (SOME k::'c. true))"}),
+        ("corpus:long:fun", {"ty": "def.ind", "name": "longfn", "type": "nat => nat => nat", "rules": [
+            {"prop": "longfn 0 n = (if n = 0 then (1::nat) else n + n + n) + (if n = 1 then (0::nat) else n + 1) + (if n = n then n else (0::nat)) + n + n + 1"},
+            {"prop": "longfn (Suc m) n = longfn m (n + 1) + (if m = n then longfn m n else longfn m (n + n)) + (if n = 0 then (1::nat) else longfn m 0) + m + n"}]}),
+        ("corpus:long:inductive", {"ty": "def.pred", "name": "longpr", "type": "nat => nat => bool", "rules": [
+            {"name": "longpr_base", "prop": "longpr 0 0"},
+            {"name": "longpr_step", "prop": "longpr m n --> longpr n m --> m = n + n --> n = m + 1 --> longpr (m + n) (n + m) --> longpr (Suc m) (Suc (Suc n)) --> longpr (Suc (m + n + n)) (n + m + m)"}]}),
         ("corpus:valid", {"ty": "def", "name": "Kc", "type": "'a => 'b => 'a", "prop": "Kc x y = x"}),
         ("corpus:valid", {"ty": "def", "name": "compc", "type": "('b => 'c) => ('a => 'b) => 'a => 'c", "prop": "compc f g x = f (g x)"}),
         ("corpus:valid", {"ty": "def", "name": "Ic", "type": "'a => 'a", "prop": "Ic = (%x::'a. x)", "attributes": ["hint_rewrite"]}),
@@ -1222,7 +1400,9 @@ def run(ctx):
         "variable, repeated / non-variable argument, free or schematic variable, schematic type variable, wrong shape, eta-reduced, shadowing), "
         "definitions of overloaded names (new / other / same / overlapping / existing instance), datatypes, recursive functions, inductive predicates "
         "(valid and malformed), axioms, theorems with attributes, constants, types, headers; a case = one item, non-trivial = accepted; distinct by "
-        "the JSON text.")
+        "the JSON text. Added: definitions whose right-hand side negates the constant at a type related to its own (type variables permuted, "
+        "merged, renamed, partially instantiated, wrapped); items with rules / statements / constructor lists of 60-300 characters; every "
+        "accepted item's editor round trip under line_length in {120, 80, 60, 40} x unicode (library theorems at quick tier: two settings each).")
     ok = ctx.lean_props(["Holpy.C11.Props"], exes=[EXE])
     if ctx.tier == "thorough" and ok:
         ctx.lean_check_modules(["Holpy.C11.Props"])
@@ -1315,12 +1495,13 @@ MANIFEST = {
             "type instances of the equation simultaneously, changing the valuation only at the instances of the constant's type "
             "(def_conservative_poly, from def_conservative_family); a satisfiable set of sequents stays satisfiable with the equation added "
             "(def_keeps_consistency); the generated theorem passes check_thm_type (def_ext_welltyped); one counterexample theorem per side condition "
-            "(self reference, extra type variable, free variable, non-variable argument: no interpretation exists; repeated argument: the "
-            "interpretation is not unique). defOK is tied to server/items.py by differential execution on generated item descriptions (both sides see "
+            "(self reference, self reference at a type with permuted type variables, extra type variable, free variable, non-variable argument: "
+            "no interpretation exists; repeated argument: the interpretation is not unique). defOK is tied to server/items.py by differential execution on generated item descriptions (both sides see "
             "the parser's output); every accepted generated definition is checked against the side conditions directly and searched for a finite "
             "counter-model over several type instances with the same `sem`; every item of the 43 library files and generated datatypes / recursive "
             "functions / inductive predicates / axioms / theorems / constants are run through parse_item, get_extension (checked with "
-            "Theory.check_type/check_term and Thm.check_thm_type over the extended theory) and both round trips as monitor.check_theory compares them.",
+            "Theory.check_type/check_term and Thm.check_thm_type over the extended theory) and both round trips as monitor.check_theory compares them; the editor round trip is repeated under the "
+            "ambient settings app/ide.py uses (line_length 120/80/60/40, unicode on/off), also on generated items with long rules and statements.",
     "note": "Trusted: Lean kernel, axioms propext/Classical.choice/Quot.sound; the parser/printer (C07/C08) whose output is the object of the side "
             "conditions; the hand model's fidelity is as good as the generated items exercise it. Fun/Inductive/Datatype/Axiom/Constant items are "
             "axiomatic: no conservativity claim, only well-typed extensions and round trips. For overloaded constants newness is the instance check "
